@@ -130,6 +130,39 @@ def join_rule(facts, ex, res, kind):
     return n
 
 
+def only_through_stages(facts, ex, res, R="C03.a.same-submissions"):
+    """(a) third part: execute() touches the tree only through its stage functions.  Any other call in execute() that is handed the
+    tree (a delegate algorithm, a helper) is an execution path of its own: it does not use the per-worker kernel objects the
+    executor owns (what applyToAllKernels visits), its operator applications are not the ones compared with the reference, and an
+    early return behind it skips the stages."""
+    fm = ex.exec_model
+    tree = ex.execute["params"][0]["did"] if ex.execute.get("params") else None
+    n = 0
+    for c in walk(fm.body):
+        if c.get("k") not in ("CallExpr", "CXXMemberCallExpr"):
+            continue
+        if ex._self_call(c) in ex.stages:
+            n += 1
+            continue
+        for a in tbf.call_args(c):
+            a0 = strip(a)
+            if a0 is not None and a0.get("k") == "DeclRefExpr" and a0.get("did") == tree:
+                res.violation(R, tbf.rel(facts.path_of(c)), ex.cls + "::execute", "bypass:%s" % (tbf.callee_name(c) or "?"), c["l"][1],
+                              "execute() hands the tree to `%s`, which is not one of its stage functions: the work done there does not go through the executor's stages and per-worker kernels "
+                              "(kernel state such as interaction counters stays in whatever object that call uses, and the submissions are not those of the reference)" % facts.ntext(c)[:80])
+    # copies of a per-worker kernel: constructing anything from an element of the kernel vector
+    for c in walk(fm.body):
+        if c.get("k") in ("VarDecl",) and kids(c):
+            t = facts.ntext(c)
+            for y in walk(c):
+                if y.get("k") in ("MemberExpr", "CXXDependentScopeMemberExpr") and y.get("name") == "kernels" and (not kids(y) or strip(kids(y)[0]).get("k") == "CXXThisExpr"):
+                    p_ = y.get("_p")
+                    if p_ is not None and p_.get("k") in ("CXXDependentScopeMemberExpr", "MemberExpr") and p_.get("name") in ("front", "back", "at"):
+                        res.violation(R, tbf.rel(facts.path_of(c)), ex.cls + "::execute", "kernel-copy:%s" % c.get("name"), c["l"][1],
+                                      "`%s` is constructed from an element of the per-worker kernel vector: operators applied through it update a copy that applyToAllKernels never visits" % t[:90])
+    return n
+
+
 def kernels_sized(facts, ex, res, worker_count_call):
     """(d) second half: the per-worker kernel vector is grown to the runtime's worker count in execute()
     before any task is created"""
@@ -227,6 +260,7 @@ def run(res, tier):
                     res.violation("C03.a.same-submissions", tbf.rel(facts.path_of(c["node"])), st.fn["qname"], c["method"] + ":untasked", c["node"]["l"][1],
                                   "wrapper call executed by the creating thread outside any task: it is not ordered with the tasks touching the same blocks")
         join_rule(facts, ex, res, "omp")
+        only_through_stages(facts, ex, res)
         kernels_sized(facts, ex, res, "omp_get_max_threads")
         for fn in facts.methods_of(cls):
             ntasks += omp.check_capture_lifetime(facts, fn, res)
